@@ -137,25 +137,61 @@ func c14Batch(seed int64, b int, out *childOut) {
 			return false
 		}
 	}
-	if !sendL(common.RemoteUserLogin{Source: login, PID: pid, CredUserID: "cred"}) ||
-		!sendL(common.RemoteUserLogin{Source: identityEvent(9999, 3999999, time.Now().UTC()), PID: 3999999, CredUserID: "s"}) {
+	// The login arrives either first (events are emitted directly) or after
+	// the LOGIN record and `late` record groups (those are held and released
+	// by the hold-queue flush, which must render them just as faithfully).
+	late := -1
+	if b%2 == 1 {
+		late = r.Intn(n + 1)
+		if late > 40 {
+			late = 40
+		}
+	}
+	bindLogin := func() bool {
+		return sendL(common.RemoteUserLogin{Source: login, PID: pid, CredUserID: "cred"}) &&
+			sendL(common.RemoteUserLogin{Source: identityEvent(9999, 3999999, time.Now().UTC()), PID: 3999999, CredUserID: "s"})
+	}
+	if late < 0 && !bindLogin() {
 		return
 	}
 	seq := uint32(100)
 	groups := map[int64]auGroup{}
 	var all []string
 	all = append(all, vlib.AuLogin(vlib.BaseTSms, seq, strconv.Itoa(pid), ses))
+	loginAfterLine := -1
 	for k := 1; k <= n; k++ {
 		seq++
 		g := genGroup(r, vlib.BaseTSms+int64(k), seq, pid, ses, false)
 		groups[g.TSms] = g
 		all = append(all, g.Lines...)
+		if k == late {
+			loginAfterLine = len(all)
+		}
+	}
+	if late == 0 {
+		loginAfterLine = 1
 	}
 	seq++
 	all = append(all, vlib.AuUser("USER_ACCT", vlib.BaseTSms+900000, seq, 1, "4294967295", "PAM:accounting", "success")) // barrier
 	seq++
 	all = append(all, vlib.AuUser("USER_ACCT", vlib.BaseTSms+900001, seq, 1, "4294967295", "PAM:accounting", "success"))
-	for _, l := range all {
+	for i, l := range all {
+		if i == loginAfterLine {
+			// two barrier records first, so that every line before this point has been pushed
+			for k := 0; k < 2; k++ {
+				select {
+				case audits <- vlib.AuUser("USER_ACCT", vlib.BaseTSms+800000+int64(k), uint32(80000+k), 1, "4294967295", "PAM:accounting", "success"):
+				case err := <-done:
+					fail(fmt.Sprint("Read returned early: ", err))
+					return
+				}
+			}
+			if !bindLogin() {
+				return
+			}
+			out.add("late_login_batches", 1)
+			out.add("events_released_from_hold_queue", late+1)
+		}
 		select {
 		case audits <- l:
 		case err := <-done:
@@ -175,9 +211,14 @@ func c14Batch(seed int64, b int, out *childOut) {
 		out.stats["max:emissions_from_one_login"] = len(calls)
 	}
 	ident := ""
+	seenTS := map[int64]int{}
 	for _, c := range calls {
 		ev := c.Ev
 		ts := ev.LoggedAt.UnixMilli()
+		seenTS[ts]++
+		if seenTS[ts] == 2 {
+			out.violation("C14:loggedAt:two-events-with-one-timestamp", fmt.Sprintf("two emitted events carry loggedAt %v although every generated record group has its own timestamp: %s", ev.LoggedAt, c.Snap), map[string]any{"batch": b, "late_login_after_groups": late})
+		}
 		wit := map[string]any{"batch": b, "emitted": string(c.Snap)}
 		if ts == vlib.BaseTSms { // the LOGIN record itself
 			if ev.Type != "UserAction" || ev.Component != "auditd" || ev.Metadata.AuditID != ses {
@@ -293,9 +334,12 @@ func checkC14(r *vlib.Run) int {
 	r.Set("events_without_args", res.stats["events_without_args"])
 	r.Set("max_emissions_from_one_login", res.stats["max:emissions_from_one_login"])
 	r.Set("groups_sent", res.stats["groups_sent"])
+	r.Set("late_login_batches", res.stats["late_login_batches"])
+	r.Set("events_released_from_hold_queue", res.stats["events_released_from_hold_queue"])
 	r.Set("groups_not_emitted_c15s_subject", res.stats["groups_not_emitted"])
 	r.Require(res.stats["events_compared"] >= res.stats["groups_sent"]*95/100, "fewer than 95% of the generated groups were emitted and compared")
 	r.Require(len(toks) >= 7, "not every result token exercised")
+	r.Require(res.stats["events_released_from_hold_queue"] > 500, "too few events went through the hold-queue flush")
 	r.Require(res.stats["events_with_args"] > 100 && res.stats["events_without_args"] > 100, "argument presence not exercised both ways")
 	r.Assumptions = []string{"the expected summary is computed by go-libaudit's aucoalesce on fresh copies of the same lines (coalescing mutates the parsed message's cached map); the expected outcome comes from the generator's token and is cross-checked with go-libaudit",
 		"whether every group is emitted is C15's subject; here at least 95% must have been compared"}
